@@ -50,7 +50,7 @@ def gen_vcmp(tier, rng):
     extra = []
     for _ in range(20 if tier == 'quick' else 200):
         n = rng.randint(1, 6)
-        pre = tuple(rng.choice([0, 1, 9, 10, U64 - 1, 'a', 'b', 'a-', '-', 'A', 'aa', '0a', '1-']) for _ in range(n))
+        pre = tuple(rng.choice([0, 1, 9, 10, U64 - 1, 'a', 'b', 'a-', '-', 'A', 'aa', '0a', '1-'] + HV.all_nums() + HV.magic()['tags']) for _ in range(n))
         extra.append(V(1, 0, 0, pre, rng.choice(BUILDS)))
     U = U + extra
     cases = [dump(['vcmp', enc_version(a), enc_version(b)]) for a in U for b in U]
@@ -123,8 +123,8 @@ def npm_diff(a, b):
     return 'prerelease'
 
 def gen_vdiff(tier, rng):
-    nums = [0, 1, 2] if tier == 'quick' else [0, 1, 2, 5, MAX]
-    tags = [(), (0,), ('a',), ('a', 1)] if tier == 'quick' else [(), (0,), (1,), ('a',), ('a', 1), ('b',)]
+    nums = ([0, 1, 2] if tier == 'quick' else [0, 1, 2, 5, MAX]) + HV.nums(3)
+    tags = ([(), (0,), ('a',), ('a', 1)] if tier == 'quick' else [(), (0,), (1,), ('a',), ('a', 1), ('b',)]) + HV.tags()[:2]
     U = [V(a, b, c, t, rng.choice(BUILDS)) for a in nums for b in nums for c in nums for t in tags]
     cases = [dump(['vdiff', enc_version(a), enc_version(b)]) for a in U for b in U]
     return cases, {'universe': len(U), 'exhaustive': True,
@@ -199,7 +199,7 @@ PROPERTIES = {
                        'a generated -0 upper bound never opens the gate; the opt-in survives intersection exactly for versions within both operands',
     },
     'C11': {
-        'families': [{'name': 'minv', 'gen': FS.gen_minv, 'eval': FS.eval_minv}],
+        'families': [{'name': 'minv', 'gen': with_magic(FS.gen_minv), 'eval': FS.eval_minv}],
         'rule': 'min_version on every one-interval range of the small universe, random multi-alternative ranges and set-operation results; the returned version is fed back to satisfies(), '
                 'and every probed version that satisfies is compared with it; non-trivial = ranges with several alternatives or whose answer is a prerelease',
         'explanation': 'theorems: Some(m) implies m satisfies and is a lower bound of all satisfying versions; None implies nothing satisfies; per alternative, an empty alternative contributes no candidate',
@@ -241,28 +241,28 @@ PROPERTIES = {
                        'on well-formed ranges difference/satisfies/Display reach no panic arm and results are well formed again; min_version stays below 2^64',
     },
     'C07': {
-        'families': [{'name': 'setops-isect', 'gen': FS.gen_setops(['isect']), 'eval': FS.eval_isect}],
+        'families': [{'name': 'setops-isect', 'gen': with_magic(FS.gen_setops(['isect'])), 'eval': FS.eval_isect}],
         'rule': 'setops family restricted to intersect: every ordered pair of one-interval ranges over the small version universe, and random multi-alternative pairs; '
                 'non-trivial = pairs for which some probed version lies within both operands (the intervals touch or overlap)',
         'explanation': 'theorems: bounds membership of A.intersect(B) is the conjunction; release/prerelease satisfaction laws; None only if disjoint; commutative, idempotent; wf preserved',
     },
     'C08': {
-        'families': [{'name': 'setops-diff', 'gen': FS.gen_setops(['diff', 'isect']), 'eval': FS.eval_diff}],
+        'families': [{'name': 'setops-diff', 'gen': with_magic(FS.gen_setops(['diff', 'isect'])), 'eval': FS.eval_diff}],
         'rule': 'setops family restricted to difference (and intersect for the partition law); non-trivial = pairs where some probed version lies within both operands (something is cut out)',
         'explanation': 'theorems: no unwrap() is reached; membership of A.difference(B) = within A and outside every alternative of B; release satisfaction; None only if nothing remains; disjoint from B; partition with intersect; wf preserved',
     },
     'C09': {
-        'families': [{'name': 'setops-any', 'gen': FS.gen_setops(['allows_any', 'isect']), 'eval': FS.eval_allows_any}],
+        'families': [{'name': 'setops-any', 'gen': with_magic(FS.gen_setops(['allows_any', 'isect'])), 'eval': FS.eval_allows_any}],
         'rule': 'setops family restricted to allows_any (and intersect for the agreement law); non-trivial = pairs where some probed version lies within both operands',
         'explanation': 'theorems: allows_any = intersect.is_some, symmetric, false implies disjoint bounds, true whenever a version satisfies both; endpoint examples by computation on parsed text',
     },
     'C10': {
-        'families': [{'name': 'setops-all', 'gen': FS.gen_setops(['allows_all', 'allows_any', 'diff']), 'eval': FS.eval_allows_all}],
+        'families': [{'name': 'setops-all', 'gen': with_magic(FS.gen_setops(['allows_all', 'allows_any', 'diff'])), 'eval': FS.eval_allows_all}],
         'rule': 'setops family restricted to allows_all (plus allows_any and difference for the two linked clauses); non-trivial = pairs with a single-alternative B for which allows_all answers true',
         'explanation': 'theorems: for single-alternative B, allows_all true implies bounds inclusion, release satisfaction inclusion and allows_any; reflexive; for single A, true iff B.difference(A) is None',
     },
     'C15': {
-        'families': [{'name': 'setops-trees', 'gen': FS.gen_setops(['isect', 'diff'], with_trees=True), 'eval': FS.eval_trees}],
+        'families': [{'name': 'setops-trees', 'gen': with_magic(FS.gen_setops(['isect', 'diff'], with_trees=True)), 'eval': FS.eval_trees}],
         'rule': 'random expression trees of depth 2-3 (thorough: 4) over intersect/difference with parsed leaves; non-trivial = trees whose value is a non-empty range',
         'explanation': 'theorems: evaluation never panics, stays well formed, and bounds membership of the value is the Boolean algebra over the leaves (hence every identity of the property); release satisfaction likewise',
     },
